@@ -181,7 +181,8 @@ Print Assumptions C09_return_prefix_is_arc4.
 
 (* CONTRACT.  For EVERY list of registrations (add_method_handler with or without an overriding name; the
    decorator form) and every hash function: the contract lists exactly the registered methods, in order,
-   under their REGISTERED names, with their argument type strings and return type string; the selector a
+   under their REGISTERED names, with their argument type strings, return type string and description
+   (the given one, else the docstring's) — each entry a function of its own registration only; the selector a
    client computes from an entry (first 4 bytes of the hash of name(args)returns) is the one the approval
    program compares ApplicationArgs[0] with; and that is the ARC-4 selector.
    (Before /repo 330bd50 this was false for a different overriding name — the contract kept the
@@ -191,6 +192,7 @@ Theorem C09_contract_selectors_agree :
     map ms_name (contract_methods registered) = map reg_name registered /\
     map ms_args (contract_methods registered) = map (fun r => map type_str (s_params (r_sig r))) registered /\
     map ms_returns (contract_methods registered) = map (fun r => ret_str type_str (s_ret (r_sig r))) registered /\
+    map ms_desc (contract_methods registered) = map reg_desc registered /\
     contract_selectors hash registered = dispatched_selectors hash registered /\
     dispatched_selectors hash registered = map (fun r => firstn 4 (hash (arc4_sig_str (registered_sig r)))) registered.
 Proof. exact contract_selectors_agree_main. Qed.
